@@ -133,24 +133,24 @@ class WrapModel:
 
         def summ(exe_, st, f, bb, callee, args, dest_ty):
             c = re.sub(r"\s+", " ", callee.strip())
-            if re.search(r"TaggedLine::<\w+>::new$", c):
+            if re.search(r"TaggedLine::<.*>::new$", c):
                 return [(st, tagged_line(exe, exe.fresh_name("newline"), VInt(U(0), 64, False), VBool(z3.BoolVal(False)), VInt(U(0), 64, False)))]
-            if re.search(r"TaggedLine::<\w+>::is_empty$", c):
+            if re.search(r"TaggedLine::<.*>::is_empty$", c):
                 l = exe.deref(st, args[0])
                 return [(st, VBool(z3.Not(l.fields[2].e)))]
-            if re.search(r"TaggedLine::<\w+>::width$", c):
+            if re.search(r"TaggedLine::<.*>::width$", c):
                 l = exe.deref(st, args[0])
                 return [(st, l.fields[1])]
-            if re.search(r"TaggedLine::<\w+>::push_char$", c):
+            if re.search(r"TaggedLine::<.*>::push_char$", c):
                 ch = args[1]
                 w = z3.If(char_is_control(ch.e), U(0), char_width(ch.e))
                 upd_line(st, args[0], lambda v, ln, ne, gw: (v, VInt(ln.e + w, 64, False), VBool(z3.BoolVal(True)), VInt(gw.e + w, 64, False)))
                 return [(st, VUnit())]
-            if re.search(r"TaggedLine::<\w+>::push_ws$", c):
+            if re.search(r"TaggedLine::<.*>::push_ws$", c):
                 n = args[1]
                 upd_line(st, args[0], lambda v, ln, ne, gw: (v, VInt(ln.e + n.e, 64, False), VBool(z3.Or(ne.e, n.e != 0)), VInt(gw.e + n.e, 64, False)))
                 return [(st, VUnit())]
-            if re.search(r"TaggedLine::<\w+>::push$", c):
+            if re.search(r"TaggedLine::<.*>::push$", c):
                 el = args[1]
                 if isinstance(el, VAgg) and el.variant == "Str":
                     ts = el.fields[0]
@@ -162,7 +162,7 @@ class WrapModel:
                                                                  VBool(z3.Or(ne.e, nb.e != 0)), VInt(gw.e + z3.If(nb.e != 0, w.e, U(0)), 64, False)))
                     return [(st, VUnit())]
                 return [(st, VUnit())]  # fragment marker: no width, not text
-            if re.search(r"TaggedLine::<\w+>::consume$", c):
+            if re.search(r"TaggedLine::<.*>::consume$", c):
                 src = exe.deref(st, args[1])
                 sv, sl, sne, sgw = src.fields
                 upd_line(st, args[0], lambda v, ln, ne, gw: (v, VInt(ln.e + sgw.e, 64, False), VBool(z3.Or(ne.e, sne.e)), VInt(gw.e + sgw.e, 64, False)))
